@@ -2,6 +2,7 @@
 
 A spec is a plain dict so that generated cases stay JSON-serialisable (replay files).
 """
+import numpy as np
 from hypothesis import strategies as st
 
 from harness import doubles
@@ -41,11 +42,43 @@ def build_transformer(spec):
         from sktime.transformations.series.compose import OptionalPassthrough
 
         return OptionalPassthrough(build_transformer(spec["inner"]), passthrough=spec["passthrough"])
+    if k == "func":
+        from sklearn.preprocessing import FunctionTransformer
+
+        from sktime.transformations.series.adapt import TabularToSeriesAdaptor
+
+        fwd, inv = {"sqrt": (np.sqrt, np.square), "cbrt": (np.cbrt, _cube)}[spec["name"]]
+        return TabularToSeriesAdaptor(FunctionTransformer(fwd, inverse_func=inv, check_inverse=False))
     if k == "imputer":
         from sktime.transformations.series.impute import Imputer
 
         return Imputer(method=spec.get("method", "mean"))
     raise ValueError(k)
+
+
+def _cube(a):
+    return np.asarray(a, dtype=float) ** 3
+
+
+STATELESS_TRANSFORMERS = ("log", "func")
+
+
+def stateless_chains(min_size=2, max_size=3):
+    """Chains of element-wise, parameter-free invertible transformers valid on data >= 5:
+    a pipeline of these on a forecaster that refits on update is itself equivalent to a
+    fresh fit on all the data."""
+    return st.sampled_from([
+        [{"kind": "func", "name": "sqrt"}, {"kind": "log"}],
+        [{"kind": "log"}, {"kind": "func", "name": "cbrt"}],
+        [{"kind": "func", "name": "sqrt"}, {"kind": "func", "name": "cbrt"}],
+        [{"kind": "log"}, {"kind": "func", "name": "sqrt"}],
+        [{"kind": "func", "name": "sqrt"}, {"kind": "log"}, {"kind": "func", "name": "cbrt"}],
+        [{"kind": "log"}],
+    ]).filter(lambda c: min_size <= len(c) <= max_size)
+
+
+def is_stateless_pipeline(spec):
+    return spec["kind"] == "pipeline" and all(t["kind"] in STATELESS_TRANSFORMERS for t in spec["transformers"])
 
 
 def _regressor(name, seed=0):
@@ -198,6 +231,8 @@ def refits_on_update(spec):
         return False
     if k in ("ensemble", "multiplex"):
         return all(refits_on_update(m) for m in spec["members"])
+    if is_stateless_pipeline(spec):
+        return refits_on_update(spec["forecaster"])
     return False
 
 
@@ -258,6 +293,7 @@ def transformer_specs(allow_boxcox=True):
         st.builds(lambda d: {"kind": "detrend", "degree": d}, st.integers(0, 2)),
         st.just({"kind": "log"}),
         st.builds(lambda w: {"kind": "scaler", "which": w}, st.sampled_from(["standard", "minmax"])),
+        st.builds(lambda nm: {"kind": "func", "name": nm}, st.sampled_from(["sqrt", "cbrt"])),
     ]
     if allow_boxcox:
         # bounded lambda: unbounded Box-Cox on near-constant data overflows (scipy behaviour)
@@ -268,6 +304,8 @@ def transformer_specs(allow_boxcox=True):
 def _rank(t):
     if t["kind"] in ("deseason", "cond_deseason") and t["model"] == "multiplicative":
         return 0  # needs (and keeps) positive data
+    if t["kind"] == "func" and t["name"] == "sqrt":
+        return 0
     if t["kind"] in ("log", "boxcox"):
         return 1  # needs positive data, output may be negative
     return 2
